@@ -7,6 +7,7 @@ open Rs1090 Rs1090.Driver
 def handle : List String → Option String
   | ["gps", n] => n.toNat?.map fun n => showOutcomeNat (Gen.Time.since_gps_week_to_since_today n)
   | ["week", n] => n.toNat?.map fun n => showOutcomeNat (Gen.Time.gps_week_in_s n)
+  | ["today", n] => n.toNat?.map fun n => showOutcomeNat (Gen.Time.today_in_s n)
   | _ => none
 
 end Rs1090.Driver.C18
